@@ -75,10 +75,16 @@ impl Acc {
 /// which the real binary formats files
 const CASE_THREAD_STACK: usize = 2 * 1024 * 1024;
 
+/// sanitizer builds have much larger stack frames: their sub-runs ask for a bigger stack so that
+/// an instrumentation-induced stack overflow is not mistaken for a memory error
+fn case_thread_stack() -> usize {
+    std::env::var("VERIF_STACK_MB").ok().and_then(|s| s.parse::<usize>().ok()).map(|mb| mb * 1024 * 1024).unwrap_or(CASE_THREAD_STACK)
+}
+
 pub fn worker_main(id: &str, tier: Tier, seed: u64, shard: u64, nshards: u64, from: u64, work_dir: PathBuf) {
     let id = id.to_string();
     let h = std::thread::Builder::new()
-        .stack_size(CASE_THREAD_STACK)
+        .stack_size(case_thread_stack())
         .spawn(move || worker_body(&id, tier, seed, shard, nshards, from, work_dir))
         .expect("spawn case thread");
     if h.join().is_err() {
@@ -153,7 +159,7 @@ fn worker_body(id: &str, tier: Tier, seed: u64, shard: u64, nshards: u64, from: 
 pub fn solo_main(id: &str, tier: Tier, seed: u64, idx: u64, work_dir: PathBuf) {
     let id = id.to_string();
     let h = std::thread::Builder::new()
-        .stack_size(CASE_THREAD_STACK)
+        .stack_size(case_thread_stack())
         .spawn(move || solo_body(&id, tier, seed, idx, work_dir))
         .expect("spawn case thread");
     if h.join().is_err() {
